@@ -7,6 +7,7 @@ import (
 	"bufio"
 	"context"
 	"crypto/tls"
+	"encoding/binary"
 	"fmt"
 	"log/slog"
 	"net"
@@ -16,7 +17,9 @@ import (
 	"sync"
 	"time"
 
+	"github.com/google/gopacket"
 	"github.com/scionproto/scion/pkg/addr"
+	"github.com/scionproto/scion/pkg/slayers"
 	"github.com/scionproto/scion/pkg/snet"
 	spath "github.com/scionproto/scion/pkg/snet/path"
 
@@ -41,7 +44,8 @@ func listenerMain() {
 	ip := ownAddr(8)
 	ctx := context.Background()
 	log := slog.New(slog.NewTextHandler(os.Stderr, &slog.HandlerOptions{Level: slog.LevelError}))
-	server.StartIPServer(ctx, log, &net.UDPAddr{IP: ip, Port: ipPort}, 0, provider)
+	// the IP listener of this process is the IPv6 one (a process can start only one: metrics)
+	server.StartIPServer(ctx, log, &net.UDPAddr{IP: net.IPv6loopback, Port: port6(os.Getpid())}, 0, provider)
 	server.StartSCIONServer(ctx, log, "", &net.UDPAddr{IP: ip, Port: scionPort}, 0, provider)
 	time.Sleep(100 * time.Millisecond)
 	fmt.Println("READY")
@@ -53,6 +57,10 @@ func listenerMain() {
 		}
 	}
 }
+
+// port6 is the port of the auxiliary process' IPv6 listener on ::1 (there is only one ::1, so
+// concurrent checks are kept apart by the port)
+func port6(pid int) int { return 21000 + pid%20000 }
 
 type auxProc struct {
 	cmd   *exec.Cmd
@@ -168,7 +176,7 @@ func (e *netEnv) runNoDaemon(a []val) string {
 		if err != nil {
 			panic(err)
 		}
-		ok := e.exchangeRetry(dst, st.l[1].b, spkt, func(b []byte) bool {
+		ok := e.exchangeRetry(e.sock, dst, st.l[1].b, spkt, func(b []byte) bool {
 			pl, _, ok := scionPayload(b)
 			return ok && e.isSentinelReply(pl)
 		}, aux.dead)
@@ -192,8 +200,7 @@ func (e *netEnv) runNoDaemon(a []val) string {
 
 // exchangeRetry is exchange with the sentinel repeated up to three times (a lost datagram on a
 // loaded machine is not a violation) and an early end when the process under test is gone.
-func (e *netEnv) exchangeRetry(dst *net.UDPAddr, pkt, sentinel []byte, isSentinel func([]byte) bool, dead chan struct{}) bool {
-	c := e.sock
+func (e *netEnv) exchangeRetry(c *net.UDPConn, dst *net.UDPAddr, pkt, sentinel []byte, isSentinel func([]byte) bool, dead chan struct{}) bool {
 	if pkt != nil {
 		c.WriteToUDP(pkt, dst)
 	}
@@ -221,6 +228,39 @@ func (e *netEnv) exchangeRetry(dst *net.UDPAddr, pkt, sentinel []byte, isSentine
 		}
 	}
 	return false
+}
+
+// srv.ip6: datagrams to the IP listener of the auxiliary process on [::1], from a [::1] socket,
+// each followed by a plain NTP sentinel.
+func (e *netEnv) runIP6(a []val) string {
+	if aux == nil || !aux.alive() {
+		var err error
+		aux, err = startAux()
+		if err != nil {
+			note("srv.ip6: " + err.Error())
+			return "0 []"
+		}
+	}
+	c, err := net.ListenUDP("udp6", &net.UDPAddr{IP: net.IPv6loopback})
+	if err != nil {
+		note("srv.ip6: " + err.Error())
+		return "0 []"
+	}
+	defer c.Close()
+	dst := &net.UDPAddr{IP: net.IPv6loopback, Port: port6(aux.cmd.Process.Pid)}
+	var ss []string
+	for _, d := range a[0].l {
+		s := e.nextSentinel()
+		ok := e.exchangeRetry(c, dst, d.b, s, e.isSentinelReply, aux.dead)
+		ss = append(ss, lib.Bool(ok))
+		if !ok {
+			break
+		}
+	}
+	if !aux.alive() {
+		return lib.V("0", lib.L(ss...))
+	}
+	return lib.V("1", lib.L(ss...))
 }
 
 // ---- cli.kestall: an NTS-KE server that completes the handshake and then stalls ----
@@ -334,4 +374,198 @@ func runClientKEStall(e *netEnv, a []val) string {
 		}
 	}
 	return lib.V("1", lib.L(lib.Bool(r1), lib.Bool(r2)))
+}
+
+// ---- SCMP ----
+
+// echoSentinel sends a well-formed SCMP echo request to the SCION listener and waits for the
+// echo reply with the same identifier and sequence number.
+func (e *netEnv) echoSentinel() bool {
+	e.seq++
+	body := []byte{0xC0, 0x08, byte(e.seq >> 8), byte(e.seq), 'p', 'i', 'n', 'g'}
+	h := e.baseSpec(scionPort)
+	h.scmp, h.scmpRaw = int(slayers.SCMPTypeEchoRequest), true
+	pkt, err := buildSCION(h, body)
+	if err != nil {
+		panic(err)
+	}
+	_, ok := e.exchange(&net.UDPAddr{IP: e.srvIP, Port: scionPort}, nil, pkt, func(b []byte) (ok bool) {
+		defer func() {
+			if recover() != nil {
+				ok = false
+			}
+		}()
+		var (
+			scn slayers.SCION
+			hbh slayers.HopByHopExtnSkipper
+			e2e slayers.EndToEndExtnSkipper
+			u   slayers.UDP
+			sc  slayers.SCMP
+		)
+		parser := gopacket.NewDecodingLayerParser(slayers.LayerTypeSCION, &scn, &hbh, &e2e, &u, &sc)
+		parser.IgnoreUnsupported = true
+		decoded := make([]gopacket.LayerType, 0, 4)
+		if err := parser.DecodeLayers(b, &decoded); err != nil || len(decoded) < 2 || decoded[len(decoded)-1] != slayers.LayerTypeSCMP {
+			return false
+		}
+		return sc.TypeCode.Type() == slayers.SCMPTypeEchoReply && len(sc.Payload) >= 4 && string(sc.Payload[:4]) == string(body[:4])
+	})
+	return ok
+}
+
+// genThird: SCMP bodies of every length, authenticated NTS plaintexts of every length, datagrams
+// beyond the receive buffers, SCION paths with hop fields.
+func (g *gen) genThird() {
+	e := setupNet()
+	r := g.r
+	sockPort := uint16(e.sock.LocalAddr().(*net.UDPAddr).Port)
+	base := func() *scionSpec {
+		h := e.baseSpec(scionPort)
+		h.udpSrc = sockPort
+		return h
+	}
+	item := func(under int, b []byte) string { return lib.L(lib.I(int64(under)), lib.B(b)) }
+	// SCMP echo / traceroute requests (and other types) with bodies of 0..12 bytes and oversize
+	var sc []string
+	for _, t := range []slayers.SCMPType{slayers.SCMPTypeEchoRequest, slayers.SCMPTypeTracerouteRequest, slayers.SCMPTypeEchoReply, slayers.SCMPTypeTracerouteReply, 1, 4, 200} {
+		for _, l := range []int{0, 1, 2, 3, 4, 5, 6, 7, 8, 9, 10, 11, 12, 19, 20, 24, 100, 1200, 8000} {
+			h := base()
+			h.scmp, h.scmpRaw = int(t), true
+			if b, err := buildSCION(h, r.Bytes(l)); err == nil {
+				sc = append(sc, item(scionPort, b))
+				if l < 8 && t <= slayers.SCMPTypeTracerouteRequest {
+					sc = append(sc, item(endhostPort, b))
+				}
+			}
+			if l <= 4 && t == slayers.SCMPTypeEchoRequest {
+				for _, pt := range []struct {
+					t   uint8
+					raw []byte
+				}{{2, oneHopComplete}, {2, oneHopIncomplete}, {1, scionZeroSeg}} {
+					h2 := base()
+					h2.scmp, h2.scmpRaw = int(t), true
+					h2.pathType, h2.pathRaw = pt.t, pt.raw
+					if b, err := buildSCION(h2, r.Bytes(l)); err == nil {
+						sc = append(sc, item(scionPort, b))
+					}
+				}
+			}
+		}
+	}
+	for i := 0; i < len(sc); i += 4 {
+		g.add("srv.scmp", "nt", lib.L(sc[i:min(i+4, len(sc))]...))
+	}
+	// authenticated requests whose sealed plaintext has every length 1..40, stray bytes after
+	// complete fields, a complete field cut short: in-process, to both listeners, from the peers
+	key := r.Bytes(32)
+	var plains [][]byte
+	for l := 1; l <= 40; l++ {
+		plains = append(plains, r.Bytes(l))
+	}
+	for _, stray := range []int{1, 2, 3, 5} {
+		plains = append(plains, append(extField(0x204, r.Bytes(124)), r.Bytes(stray)...))
+		plains = append(plains, append(append(extField(0x204, r.Bytes(24)), extField(0x999, r.Bytes(28))...), r.Bytes(stray)...))
+		f := extField(0x204, r.Bytes(124))
+		plains = append(plains, f[:len(f)-stray])
+	}
+	for _, pl := range plains {
+		b := g.ntsRequest(key, 1, 32, 124, pl)
+		g.addNTSAuth("nts.auth", "nt,plainlen", b, key, nil)
+		g.addNTSAuth("nts.resp", "nt,plainlen", b, key, b[52:84])
+	}
+	s := e.newSession()
+	uid := r.Bytes(32)
+	ck := extField(0x204, s.cookie)
+	var ipd [][]byte
+	var scd []string
+	for _, pl := range plains {
+		b := craftNTS(ntpHeader(r), [][]byte{extField(0x104, uid), ck}, s.c2s, pl, 16, false)
+		ipd = append(ipd, b)
+		if f, err := buildSCION(base(), b); err == nil {
+			scd = append(scd, item(scionPort, f))
+		}
+	}
+	for i := 0; i < len(ipd); i += 4 {
+		g.add("srv.ip", "nt,plainlen", bl(ipd[i:min(i+4, len(ipd))]...))
+	}
+	for i := 0; i < len(scd); i += 4 {
+		g.add("srv.scionnts", "nt,plainlen", lib.L(scd[i:min(i+4, len(scd))]...))
+	}
+	// replies of the scripted NTS peers with such plaintexts (reply mode 5: the plaintext is that
+	// many random bytes; mode 6: a complete cookie field followed by that many stray bytes)
+	il := func(xs ...int) string {
+		ss := make([]string, len(xs))
+		for i, x := range xs {
+			ss[i] = lib.I(int64(x))
+		}
+		return lib.L(ss...)
+	}
+	good8 := il(124, 124, 124, 124, 124, 124, 124, 124)
+	for l := 1; l <= 40; l += lib.Pick(r, 1, 2) {
+		mode := lib.Pick(r, 5, 6)
+		g.add("cli.nts", "nt,plainlen", lib.L(lib.L(good8, lib.I(int64(mode)), il(l))))
+		if l%3 == 1 {
+			g.add("cli.scionnts", "nt,plainlen", lib.V(lib.L(lib.L(good8, lib.I(int64(mode)), il(l), "0", lib.B(nil))), "0", "0"))
+		}
+	}
+	// datagrams beyond the receive buffers of the listeners (the flags != 0 branches)
+	g.add("srv.ip", "nt,oversize", bl(r.Bytes(2049), r.Bytes(4000), r.Bytes(65000), append(ntpHeader(r), make([]byte, 2048)...)))
+	var big []string
+	for _, l := range []int{9188, 9189, 12000, 60000} {
+		if b, err := buildSCION(base(), r.Bytes(l)); err == nil {
+			big = append(big, item(scionPort, b), item(endhostPort, b))
+		} else {
+			big = append(big, item(scionPort, r.Bytes(l)))
+		}
+	}
+	g.add("srv.scion", "nt,oversize", lib.L(big...))
+	for _, port := range []int{319, 320} {
+		g.add("srv.csptp", "nt,oversize", lib.V(lib.I(int64(port)), lib.B(append(csptpFollowUp(5, 0x71, 1), make([]byte, 1)...))))
+		g.add("srv.csptp", "nt,oversize", lib.V(lib.I(int64(port)), lib.B(r.Bytes(3000))))
+	}
+	// IPv6: the IP listener on [::1] and the IP client over [::1]
+	v6 := e.ntsVariants(r)
+	for i := 0; i < len(v6); i += 6 {
+		g.add("srv.ip6", "nt", bl(v6[i:min(i+6, len(v6))]...))
+	}
+	g.add("srv.ip6", "nt,oversize", bl(r.Bytes(0), r.Bytes(47), r.Bytes(2049), r.Bytes(9000), ntpHeader(r)))
+	hon6 := make([]byte, 48)
+	hon6[0], hon6[1] = 0x24, 1
+	for i := 0; i < g.n(8, 80); i++ {
+		g.add("cli.ip6", "nt", lib.V(lib.L(lib.L(lib.I(int64(r.Intn(2))), lib.B(g.mutate(hon6))), lib.L("0", lib.B(r.Bytes(lib.Pick(r, 0, 47, 49, 100))))), "1"))
+	}
+	// SCION paths with info and hop fields (one segment of two hops; two segments)
+	for _, raw := range [][]byte{hopPath(1, 2, 0, 0), hopPath(0, 2, 0, 0), hopPath(1, 2, 2, 0), hopPath(3, 2, 2, 0), hopPath(1, 3, 0, 0)} {
+		for _, scmp := range []int{0, int(slayers.SCMPTypeEchoRequest)} {
+			h := base()
+			h.pathType, h.pathRaw = 1, raw
+			h.scmp = scmp
+			if b, err := buildSCION(h, ntpHeader(r)); err == nil {
+				g.add("srv.scion", "nt,hoppath", lib.L(item(scionPort, b), item(endhostPort, b)))
+			}
+			if b, err := buildSCIONAuth(h, ntpHeader(r), 0x0003007b, mockKey, 0); err == nil && scmp == 0 {
+				g.add("srv.scionauth", "nt,hoppath", lib.L(item(scionPort, b)))
+			}
+		}
+	}
+}
+
+// hopPath builds a standard SCION path: path meta header (current info/hop field, segment
+// lengths), one info field per segment, 12-byte hop fields.
+func hopPath(currHF, seg0, seg1, seg2 int) []byte {
+	meta := uint32(0)<<30 | uint32(currHF)<<24 | uint32(seg0)<<12 | uint32(seg1)<<6 | uint32(seg2)
+	b := binary.BigEndian.AppendUint32(nil, meta)
+	nseg := 0
+	for _, s := range []int{seg0, seg1, seg2} {
+		if s > 0 {
+			nseg++
+		}
+	}
+	for i := 0; i < nseg; i++ {
+		b = append(b, 1, 0, 0x12, 0x34, 0x65, 0, 0, byte(i)) // flags (cons dir), rsv, seg id, timestamp
+	}
+	for i := 0; i < seg0+seg1+seg2; i++ {
+		b = append(b, 0, 63, 0, byte(i), 0, byte(i+1), 1, 2, 3, 4, 5, 6) // flags, exp time, ingress, egress, MAC
+	}
+	return b
 }
